@@ -24,12 +24,14 @@ def step (line : String) : String :=
   | "hrefchain" :: args => handleLinks "hrefchain" args
   | "enterdef" :: args => handleLinks "enterdef" args
   | "origints" :: args => handleStructure "origints" args
+  | "origintsu" :: args => handleStructure "origintsu" args
   | "usets" :: args => handleStructure "usets" args
   | "rxry" :: args => handleStructure "rxry" args
   | "rxryobs" :: args => handleStructure "rxryobs" args
   | "switch" :: args => handleStructure "switch" args
   | "clipf" :: args => handleClip args
   | "collect" :: args => handleRefs "collect" args
+  | "escattr" :: args => handleRefs "escattr" args
   | "finputs" :: args => handleRefs "finputs" args
   | "stops" :: args => handleValues "stops" args
   | "dash" :: args => handleValues "dash" args
